@@ -119,7 +119,9 @@ def snapshot (d : D) : D × String :=
   let wk := joinWith "," ((s.workers.zipIdx.filter (fun x => x.1.phase != .done)).map fun x =>
     s!"w{x.2}={phaseLetter x.1.phase}")
   let mg := if parked d then " mg:blocked" else ""
-  ({ d with seen := s.events.length }, s!"ev:{ev} st:{st} pr:{pr} fl:{fl} wk:{wk}{mg}")
+  -- a release that gave back more than was allocated can never match the real run: forced divergence
+  let uf := if s.underflow then " MODEL-RELEASE-UNDERFLOW" else ""
+  ({ d with seen := s.events.length }, s!"ev:{ev} st:{st} pr:{pr} fl:{fl} wk:{wk}{mg}{uf}")
 
 -- ------------------------------------------------------------------ schedule restriction
 def sigOf (d : D) (id : Id) : Nat := ((d.sig.find? (·.1 == id)).map (·.2)).getD 0
